@@ -30,6 +30,7 @@ _ctr_lock = threading.Lock()
 DRV = os.path.join(VERIF, "lean", ".lake", "build", "bin", "mirdrv_c16")
 KF1 = "C16:gen-after-interp"
 KF2 = "C16:lref-cells-shared-by-engines"
+KF3 = "C16:lazy-bb-keeps-generator-ir"
 
 
 import resource
@@ -491,6 +492,33 @@ def shrink_plan(files, plan, canon, interp, kinds, exe=None, budget=40, allowed=
     return cur
 
 
+def pair_eval(plans):
+    """plans: solo_A, solo_B, A_B, B_A, interp (one process each).  Every call result of the two orders must
+    be the result of the function generated alone in a fresh context"""
+    res, probs = {}, []
+    for name, pl in plans.items():
+        rc, out, err = run_plan(pl, "pair" + hashlib.sha1((name + "\n".join(pl)).encode()).hexdigest()[:10])
+        res[name] = intrinsic_problems(rc, out, err)
+    if res["solo_A"][0] or res["solo_B"][0] or res["interp"][0]:
+        bad = [n for n in ("solo_A", "solo_B", "interp") if res[n][0]][0]
+        return [], {"skipped": f"{bad}:{res[bad][0][0]['kind']}:{str(res[bad][0][0].get('detail', ''))[:80]}"}
+    solo = {}
+    solo.update(results_by(res["solo_A"][1], "call"))
+    solo.update(results_by(res["solo_B"][1], "call"))
+    ii = results_by(res["interp"][1], "interp")
+    if any(k in ii and ii[k] != v for k, v in solo.items()):
+        return [], {"skipped": "solo-differs-from-interp"}
+    for name in ("A_B", "B_A"):
+        p, r = res[name]
+        if p:
+            return [dict(p[0], order=name)], {}
+        for k, v in results_by(r, "call").items():
+            if k in solo and solo[k] != v:
+                return [{"kind": "result-depends-on-generation-order", "order": name, "call": k, "got": v,
+                         "generated_alone": solo[k]}], {}
+    return [], {}
+
+
 # ----------------------------------------------------------------------------- replay mode
 def replay_case(case):
     """re-run one saved case; returns list of problems"""
@@ -500,6 +528,9 @@ def replay_case(case):
     files = {}
     for name, text in case["files"].items():
         files[name] = wfile(f"r_{name}.mir", text)
+    if case.get("kind") == "pair":
+        return pair_eval({k: [re.sub(r"\$\{(\w+)\}", lambda m: files[m.group(1)], l) for l in v]
+                          for k, v in case["plans"].items()})[0]
 
     def subst(pl):
         return [re.sub(r"\$\{(\w+)\}", lambda m: files[m.group(1)], l) for l in pl]
@@ -534,7 +565,7 @@ if STRUCT is None or BEHAV is None or not proof_ok:
 
 # ----------------------------------------------------------------------------- corpus of past failures / known findings
 corpus_dir = os.path.join(VERIF, "corpus", "C16")
-kf_open = {KF1: False, KF2: False}
+kf_open = {KF1: False, KF2: False, KF3: False}
 n_corpus = 0
 for fn in sorted(os.listdir(corpus_dir)) if os.path.isdir(corpus_dir) else []:
     if not fn.endswith(".json"):
@@ -838,6 +869,85 @@ for kind, lv, mode, pos in om_combos:
                       "impl_output": probs[0], "how_to_rerun": "./check C16 --replay <this file>"},
                      what=f"generation of a {kind} function ({mode}, -O{lv}) inside MIR_new_module..MIR_finish_module ({pos}): {probs[0]['kind']} {str(probs[0].get('detail', probs[0]))[:300]}")
 bstats["open_module"] = om
+
+# ----------------------------------------------------------------------------- behavioural: modules of many lazily generated functions
+from concurrent.futures import ThreadPoolExecutor as _TPE
+mm = {"plans": 0, "ifaces": {}, "canon_failed": 0, "sizes": [40, 80]}
+mm_jobs = []
+for n in range(40, 81):
+    ifs = ["lazy", "lazybb"] if not QUICK else (["lazy", "lazybb"] if n % 4 == rng.below(4) else ["lazy"])
+    for iface in ifs:
+        mm_jobs.append((n, iface, rng.below(4), rng.below(1000)))
+
+
+def mm_job(j):
+    n, iface, lv, seed = j
+    text = c16_gen.many_module(n, seed)
+    files = {"mm": path_for_text(text)}
+    plan, canon, interp = c16_gen.many_plans(n, files["mm"], lv, iface, c16_gen_rng(seed), calls_only=(iface == "lazybb" and kf_open[KF3]))
+    probs, info = behav_case(files, plan, canon, interp)
+    return j, text, files, (plan, canon, interp), probs, info
+
+
+def c16_gen_rng(seed):
+    return type(rng)(seed)
+
+
+if not behav_failed[0]:
+    with _TPE(max_workers=16) as ex:
+        for j, text, files, (plan, canon, interp), probs, info in ex.map(mm_job, mm_jobs):
+            mm["plans"] += 1
+            mm["ifaces"][j[1]] = mm["ifaces"].get(j[1], 0) + 1
+            mm["canon_failed"] += info["canon_failed"]
+            if info.get("canon_reason"):
+                mm.setdefault("canon_fail_reasons", {}).setdefault(info["canon_reason"], 0)
+                mm["canon_fail_reasons"][info["canon_reason"]] += 1
+            if probs and not behav_failed[0]:
+                behav_failed[0] = True
+                sub = lambda pl: [l.replace(files["mm"], "${mm}") for l in pl]
+                case = {"kind": "behav", "files": {"mm": text}, "plan": sub(plan), "canon": sub(canon), "interp": sub(interp)}
+                ck.violation({"stage": "tie", "theorem_or_correspondence": "behavioural: harness/c16_behav.c, module of many lazily generated functions",
+                              "case": case, "problem": probs[0], "input": {"functions": j[0], "interface": j[1], "level": j[2]},
+                              "model_output": "gen_history: every call and every repeated MIR_gen returns the same address and the same results",
+                              "impl_output": probs[0], "how_to_rerun": "./check C16 --replay <this file>"},
+                             what=f"module of {j[0]} functions, {j[1]} interface, -O{j[2]}: {probs[0]['kind']} {str(probs[0].get('summary') or probs[0].get('detail') or probs[0])[:300]}")
+bstats["many_functions"] = mm
+
+# ----------------------------------------------------------------------------- behavioural: generation-order pairs
+pr = {"cases": 0, "features": len(c16_gen.pair_features()), "victims": len(c16_gen.pair_victims()), "solo_disagrees_with_interp": []}
+pr_jobs = []
+for fi, feat in enumerate(c16_gen.pair_features()):
+    for vi, vict in enumerate(c16_gen.pair_victims()):
+        lvs = (0, 1, 2, 3) if not QUICK else sorted({2, (fi + vi + rng.below(4)) % 4})
+        for lv in lvs:
+            pr_jobs.append((feat, vict, lv))
+
+
+def pair_job(j):
+    feat, vict, lv = j
+    text, gens = c16_gen.pair_module(feat, vict)
+    plans = c16_gen.pair_plans(path_for_text(text), lv, gens)
+    probs, info = pair_eval(plans)
+    return j, text, plans, probs, info
+
+
+if not behav_failed[0]:
+    with _TPE(max_workers=16) as ex:
+        for j, text, plans, probs, info in ex.map(pair_job, pr_jobs):
+            pr["cases"] += 1
+            if info.get("skipped"):
+                pr["solo_disagrees_with_interp"].append(f"{j[0]}/{j[1]}/-O{j[2]}:{info['skipped']}")
+            if probs and not behav_failed[0]:
+                behav_failed[0] = True
+                order = probs[0]["order"]
+                sub = lambda pl: [re.sub(r"SCAN \S+", "SCAN ${mp}", l) for l in pl]
+                case = {"kind": "pair", "files": {"mp": text}, "plans": {k: sub(v) for k, v in plans.items()}}
+                ck.violation({"stage": "tie", "theorem_or_correspondence": "behavioural: harness/c16_behav.c, generation-order pairs",
+                              "case": case, "problem": probs[0], "input": {"feature": j[0], "victim": j[1], "level": j[2], "order": order},
+                              "model_output": "gen_history: what MIR_gen produces for a function does not depend on the functions generated before it",
+                              "impl_output": probs[0], "how_to_rerun": "./check C16 --replay <this file>"},
+                             what=f"pair {j[0]} / {j[1]} -O{j[2]} generated in order {order}: {probs[0]['kind']} {str(probs[0])[:300]}")
+bstats["order_pairs"] = pr
 for s in samples:
     ck.sample(s)
 dist["behav"] = bstats
@@ -866,7 +976,7 @@ if BEHAV_DBG and not behav_failed[0]:
     bstats["debug_build_plans"] = nd
 
 # ----------------------------------------------------------------------------- evidence
-ck.cov["evaluations"] = struct_stats["functions"] + bstats["corpus_plans"] + bstats["gen_plans"] + bstats["open_module"]["plans"]
+ck.cov["evaluations"] = struct_stats["functions"] + bstats["corpus_plans"] + bstats["gen_plans"] + bstats["open_module"]["plans"] + bstats["many_functions"]["plans"] + bstats["order_pairs"]["cases"]
 ck.cov["distinct_nontrivial"] = struct_stats["nontrivial"] + bstats["gen_plans"] + \
     (1 if bstats["corpus_regen"] else 0) * bstats["corpus_plans"]
 ck.cov["rule"] = ("structural: one evaluation = one function (mir-tests, `c2m -S` of sampled c-tests, generated modules) taken "
